@@ -5,6 +5,6 @@ CONSTANTS
   MaxChain = 2
   Pads = {0}
   Caps = {16384}
-  MaxRead = 0
+  MaxRead = 6
 INVARIANTS SegInv NotStuck CrossInv
 CHECK_DEADLOCK FALSE
